@@ -301,6 +301,14 @@ def mutate_tree(pl, rng, root, spare_manifests=False):
              'retype-fifo', 'retype-dangling', 'touch', 'stray-dir-with-file', 'stray-lookalike', 'stray-named-like-top-manifest',
              'delete-dir']
     k = rng.choice(kinds)
+    # a LISTED hidden file (dot files are skipped as strays, but an entry for one is checked like any other): changed
+    hidden_listed = [p for p in lf if is_hidden_path(os.path.basename(p)) and not is_hidden_path(os.path.dirname(p) or 'x')
+                     and not any(p == i or p.startswith(i + '/') for i in pl.ignored)]
+    if hidden_listed and rng.random() < 0.5:
+        p = rng.choice(hidden_listed)
+        fp = os.path.join(root, p)
+        open(fp, 'ab').write(b'!hidden-changed')
+        return ('listed-hidden-changed', p, True)
     if spare_manifests and k == 'stray-named-like-top-manifest':
         k = 'stray'
     def visible(p):
